@@ -947,7 +947,8 @@ def configs(thorough):
              ('chain_listed_backwards', [[1, 2], [0, 1]]), ('chain3', [[0, 1], [1, 2], [2, 3]]),
              ('chain3_middle_last', [[2, 3], [0, 1], [1, 2]]), ('star', [[0, 2], [0, 3]]),
              ('two_groups', [[0, 1], [2, 3]]), ('converging', [[0, 1], [3, 1]]), ('pair_oor', [[0, 9]]),
-             ('docstring', [[0, 1], [3, 1], [4, 5], [5, 6], [5, 7]])]
+             ('docstring', [[0, 1], [3, 1], [4, 5], [5, 6], [5, 7]]),
+             ('converging_unequal', [[0, 1], [1, 2], [3, 2]])]
     for name, m in masks:
         for off in (None, 0.5, 10.0):
             C.append({'fam': 'impose_as', 'name': name, 'mask': m, 'offset': off})
